@@ -44,7 +44,7 @@ CHECKS = {
               "(it+a)-=b, it=jt, it[b], front/back, size, end-begin. next_canonical / prev_canonical are the mixed-radix successor / predecessor "
               "for all 2^D carry patterns, to_linear(from_linear(k))==k. The flat iterator's own ++ / -- (pre and post forms) at a position given "
               "by its digits, one case per carry / borrow pattern, followed by -, [], += (O02.flat.step), and the end position reached by ++ "
-              "followed by -=, -, [] (O02.flat.endstep). Type-level iterator contract (W02). Cursors (home()): indexing, call form, += of an index tuple, the const cursor and stride<k>() designate the element at those offsets (O02.cursor)."),
+              "followed by -=, -, [] (O02.flat.endstep). Type-level iterator contract (W02). Cursors (home()): indexing, call form, += of an index tuple, the const cursor and stride<k>() designate the element at those offsets (O02.cursor). Zero-size corners: begin() / end() of views with an empty leading or inner extension (zero-based and re-based) delimit size() positions; the flat range of a view with a zero extent in any dimension can be formed, measured, compared and moved by 0 without a trap (this family is compiled with the front end's integer-division check, whose trap the evaluation reports, because the optimiser folds a division by a provably zero value away). All six relational operators on equal and distinct iterators."),
         design_ref="DESIGN.md 3/C02",
         note=IRNOTE + " Flat-range laws here are for zero-based views (re-based: C19). Data-dependent carries are covered by the "
              "exhaustive carry-pattern case split (positions written in mixed radix, decided with a Euclidean-division rule under the case's sign "
@@ -72,7 +72,7 @@ CHECKS = {
               "and array: copies end with base_ at a block freshly obtained from the array's own allocator and reach element copies; moves adopt the "
               "source block, run no element operation and no allocation, and reset the source to the empty layout; on no normal path do two arrays own "
               "one block; copy / move assignment have an effect-free path under this == &other; type-level witnesses (decay / unary + own, nothrow "
-              "move, views not copy constructible). Breaking any of these breaks value semantics; equality of values along histories is not decided."),
+              "move, views not copy constructible). Breaking any of these breaks value semantics; equality of values along histories is not decided. R04.source: counted element copies / moves from a contiguous source (array, array_ref) read from exactly the source's element pointer."),
         design_ref="DESIGN.md 3/C04, 2.1", note=ANOTE,
         technique="path-sensitive abstract interpretation of -O0 LLVM IR (provenance / effect rules over event traces) + compile-time witnesses",
     ),
@@ -113,7 +113,7 @@ CHECKS = {
               "assigned while dead, deallocated while alive or twice; every block is released with the element count it was requested with (count terms "
               "compared structurally); each array ends in INV; no block is unowned. With a trivially default constructible element the sizing "
               "constructors and reextent(x) contain no element-construction event. INV at every public boundary gives exactly-once construction / "
-              "destruction over all histories by induction."),
+              "destruction over all histories by induction. R08.trivial also for 0-dimensional arrays (their own class specialisation; separate driver)."),
         design_ref="DESIGN.md 3/C08, 2.1", note=ANOTE,
         technique="typestate analysis by path-sensitive abstract interpretation of -O0 LLVM IR",
     ),
@@ -194,7 +194,7 @@ CHECKS = {
               "directions (no save / load split). R17.extfirst: the extents object is archived first, as first / last of every dimension. R17.resize: on the path where "
               "the archived extents differ the array is cleared and re-extended to the archived extents object before any element item, on the equal path no storage "
               "event happens. R17.elems: exactly one make_array(data_elements(), num_elements()) item over the base / layout the array has at that moment. "
-              "R17.view: a view archives for_each over its own elements() range and the per-element action archives exactly the element it is given."),
+              "R17.view: a view archives for_each over its own elements() range and the per-element action archives exactly the element it is given. W17.inst: serialize of every array / view kind (incl. const views, views over const elements, rows of const arrays) instantiates with an archive. R17.names: the per-element actions of all view classes pass the same item name."),
         design_ref="DESIGN.md 3/C17", note=ANOTE + " Trusted: the symbolic archive model in checks/c17.py. Not decided: encodings of concrete archives (text / binary / XML), "
              "element types' own serialize functions, and equality of the reloaded values (follows from the single symmetric traversal only together with the archive's contract).",
         technique="event-trace rules over abstract interpretation of -O0 LLVM IR against a symbolic archive",
@@ -206,7 +206,7 @@ CHECKS = {
               "(external events with opaque output handles) is interpreted in the type-map algebra of the MPI standard. M18.map: the (buffer, count, datatype) "
               "denotes, as a list of (count, byte stride) loop levels, exactly the view's canonical element order from its base. M18.life: every created "
               "datatype is freed exactly once, none is used after being freed, the datatype handed out is committed before and freed once after, predefined "
-              "datatypes are never freed. Ownership transfers of the committed datatype (message(buf, skeleton&&), skeleton(skeleton&&), std::move(skeleton).datatype()) are part of the lifecycle rule."),
+              "datatypes are never freed. Ownership transfers of the committed datatype (message(buf, skeleton&&), skeleton(skeleton&&), std::move(skeleton).datatype()) are part of the lifecycle rule. Every stride is split into unit / non-unit (a unit stride is the natural special case of a type constructor; MPI_Type_contiguous is part of the algebra). M18.silent: in the assertion-enabled IR a message of an array without elements (null base, count 0) is built without reaching an assertion."),
         design_ref="DESIGN.md 3/C18",
         note=IRNOTE + " Trusted: the type-map algebra of MPI-3.1 section 4.1 as encoded in checks/c18.py; Open MPI's mpi.h. Assumes positive strides and non-empty "
              "views. Not decided: what an MPI implementation does with the message (packing, transfer, receive into another layout).",
@@ -249,7 +249,7 @@ CHECKS = {
               "sibling path ends in the assertion handler before any element write. (3) For each of ~70 owning-array / view operations per D the "
               "abstract event traces of the normal paths are identical with assertions enabled, with -DNDEBUG and with -DBOOST_MULTI_ASSERT_DISABLE "
               "(assertion conditions have no observable effect). (4) No NDEBUG-conditional code in the core headers. (5) Polynomial evaluation of "
-              "assertion-enabled -O2 IR: in-domain symbolic accesses reach no handler and give the C01 closed forms, out-of-range ones always reach it. For flat copies of D > 1 operands (array_ref assignment, elements() assignment) only a comparison over all dimensions counts as the guarding assertion."),
+              "assertion-enabled -O2 IR: in-domain symbolic accesses reach no handler and give the C01 closed forms, out-of-range ones always reach it. For flat copies of D > 1 operands (array_ref assignment, elements() assignment) only a comparison over all dimensions counts as the guarding assertion. View assignment and swap of D > 1 operands need a comparison of the extents of every dimension (whole extensions, or one comparison per level of a row-wise recursion). O20.silent.flat: every flat position of row-major and column-major padded 2-D views is reached by +=, -=, [] without an assertion. D = 2 indexing with non-zero index bases through the mutable and the const overload."),
         design_ref="DESIGN.md 3/C20", note=ANOTE + " Engine L trusted base as for C01. Not decided: silence of every assertion for every valid program (undecidable in general).",
         technique="dominator analysis on -O0 LLVM IR, differential abstract interpretation across assertion configurations, preprocessor scan, polynomial IR evaluation",
     ),
